@@ -22,6 +22,7 @@ func intCase(c *Ctx, name string, w int, uns bool, z *big.Int, class string) cel
 
 func runC10(c *Ctx) {
 	c.R.Rule = "cells drawn per (type, signedness or metadata, value class: min/max/zero/minus-one/sign-boundary/random/exhaustive); distinct = distinct class tuples; trivial = none"
+	typedHistories(c, "C10", colCasesC10, c.N(25, 400))
 	r := c.Rng
 	var cases []cellCase
 	one := big.NewInt(1)
